@@ -432,6 +432,13 @@ func (h *simHandler) BigString(fctx frugal.FContext, size int32, pad string) (st
 	}
 	return p.ret.(string), nil
 }
+func (h *simHandler) Mixed(fctx frugal.FContext, m *simsvc.Mixed) (*simsvc.Mixed, error) {
+	p, err := h.enter(fctx, "mixed", m)
+	if err != nil {
+		return nil, err
+	}
+	return p.ret.(*simsvc.Mixed), nil
+}
 func (h *simHandler) Many(fctx frugal.FContext, n int32) ([]*simsvc.Item, error) {
 	p, err := h.enter(fctx, "many", n)
 	if err != nil {
@@ -537,6 +544,8 @@ func (env *e2eEnv) invoke(p *callPlan) {
 		p.gotRet, p.gotErr = c.Blob(ctx, p.args[0].([]byte), p.args[1].(int32))
 	case "bigString":
 		p.gotRet, p.gotErr = c.BigString(ctx, p.args[0].(int32), p.args[1].(string))
+	case "mixed":
+		p.gotRet, p.gotErr = c.Mixed(ctx, p.args[0].(*simsvc.Mixed))
 	case "many":
 		p.gotRet, p.gotErr = c.Many(ctx, p.args[0].(int32))
 	case "choose":
